@@ -497,6 +497,13 @@ class Escape:
 
     def _call(self, fi, call, stmt):
         out = set()
+        # len() of a value that can be None (an element a repository generator fills with None)
+        if self.count_idioms and isinstance(call.func, ast.Name) and call.func.id == 'len' and len(call.args) == 1 \
+                and isinstance(call.args[0], ast.Name):
+            src = self._maybe_none_element(fi, call.args[0].id)
+            if src and not guarded_truthy(fi.node, call.args[0].id, call) and not self._none_partner_false(fi, call.args[0].id, call):
+                out.add(self._item(fi, call, 'TypeError', '%s len(%s) on an element that %s can leave None' % (
+                    fi.loc(call), call.args[0].id, src), 'none-len'))
         targets = self.res.resolve_call(fi, call, allow_name=True)
         kinds = [k for k, _ in targets]
         funcs = []
@@ -692,18 +699,82 @@ class Escape:
                     pos.add(i)
                 if isinstance(e, ast.Name) and any(isinstance(v, ast.Constant) and v.value is None for v, k, s_ in defs.get(e.id, []) if v is not None):
                     pos.add(i)
+                # ... or a local that holds the result of a repository function which can return None (urljoin_safe, parse_url_or_log)
+                # and is put into the tuple on a path on which it is not known to be truthy
+                if isinstance(e, ast.Name) and not guarded_truthy(g.node, e.id, t):
+                    for v, k, s_ in defs.get(e.id, []):
+                        if isinstance(v, ast.Call) and any(self._can_return_none(h) for h in self.res.callee_funcs(g, v, allow_name=True, count=False)):
+                            pos.add(i)
         cache[g.qual] = pos
+        # for every position that can hold None: the constants the *other* positions carry in exactly those tuples
+        partners = self.__dict__.setdefault('_nonepartners', {})
+        info = {}
+        for t in tuples:
+            for i, e in enumerate(t.elts):
+                if i not in pos:
+                    continue
+                is_none_here = (isinstance(e, ast.Constant) and e.value is None) or (isinstance(e, ast.Name) and not guarded_truthy(g.node, e.id, t) and (
+                    any(isinstance(v, ast.Constant) and v.value is None for v, k, s_ in defs.get(e.id, []) if v is not None)
+                    or any(isinstance(v, ast.Call) and any(self._can_return_none(h) for h in self.res.callee_funcs(g, v, allow_name=True, count=False))
+                           for v, k, s_ in defs.get(e.id, []))))
+                if is_none_here:
+                    info.setdefault(i, []).append({j: o.value for j, o in enumerate(t.elts) if j != i and isinstance(o, ast.Constant)})
+        partners[g.qual] = info
         return pos
+
+    def _none_partner_false(self, fi, name, use):
+        """`name` was unpacked next to a flag that is constant False in every tuple where `name` can be None, and `use` is only
+        evaluated when that flag is true (`flag and len(name)`, `if flag: ...`)."""
+        for v, k, st in U.local_defs(fi.node).get(name, []):
+            if not (isinstance(st, ast.For) and isinstance(st.target, (ast.Tuple, ast.List))):
+                continue
+            it_ = st.iter
+            if isinstance(it_, ast.Name):
+                ds_ = U.local_defs(fi.node).get(it_.id, [])
+                if len(ds_) == 1 and isinstance(ds_[0][0], ast.Call):
+                    it_ = ds_[0][0]
+            if not isinstance(it_, ast.Call):
+                continue
+            idx = [i for i, t in enumerate(st.target.elts) if isinstance(t, ast.Name) and t.id == name]
+            if not idx:
+                continue
+            for g in self.res.callee_funcs(fi, it_, allow_name=False, count=False):
+                self._none_positions(g)
+                cases = self.__dict__.get('_nonepartners', {}).get(g.qual, {}).get(idx[0], [])
+                if not cases:
+                    return False
+                for j, t in enumerate(st.target.elts):
+                    if j != idx[0] and isinstance(t, ast.Name) and all(c.get(j) is False for c in cases) and guarded_truthy(fi.node, t.id, use):
+                        return True
+        return False
+
+    def _can_return_none(self, h):
+        cache = self.__dict__.setdefault('_retnone', {})
+        if h.qual not in cache:
+            rets = [r for r in walk_no_nested(h.node) if isinstance(r, ast.Return)]
+            is_gen = any(isinstance(x, (ast.Yield, ast.YieldFrom)) for x in walk_no_nested(h.node))
+            cache[h.qual] = (not is_gen) and bool(rets) and any(r.value is None or (isinstance(r.value, ast.Constant) and r.value.value is None) for r in rets) \
+                and any(r.value is not None and not (isinstance(r.value, ast.Constant) and r.value.value is None) for r in rets)
+            # falls off the end after a handler (try: return x / except: log) also yields None
+            if not cache[h.qual] and not is_gen and rets and h.node.body and isinstance(h.node.body[-1], ast.Try) \
+                    and any(not (hh.body and isinstance(hh.body[-1], (ast.Return, ast.Raise))) for hh in h.node.body[-1].handlers):
+                cache[h.qual] = True
+        return cache[h.qual]
 
     def _maybe_none_element(self, fi, name):
         """`name` is bound by unpacking the tuples that a repository function produces (for a, b in g(...)) at a position where
         g can put None.  Returns g's name or None."""
         for v, k, st in U.local_defs(fi.node).get(name, []):
-            if isinstance(st, ast.For) and isinstance(st.target, (ast.Tuple, ast.List)) and isinstance(st.iter, ast.Call):
+            it_ = st.iter if isinstance(st, ast.For) else None
+            if isinstance(it_, ast.Name):
+                ds_ = U.local_defs(fi.node).get(it_.id, [])
+                if len(ds_) == 1 and isinstance(ds_[0][0], ast.Call):
+                    it_ = ds_[0][0]
+            if isinstance(st, ast.For) and isinstance(st.target, (ast.Tuple, ast.List)) and isinstance(it_, ast.Call):
                 idx = [i for i, t in enumerate(st.target.elts) if isinstance(t, ast.Name) and t.id == name]
                 if not idx:
                     continue
-                for g in self.res.callee_funcs(fi, st.iter, allow_name=False, count=False):
+                for g in self.res.callee_funcs(fi, it_, allow_name=False, count=False):
                     if idx[0] in self._none_positions(g):
                         return g.name + '()'
         return None
